@@ -77,6 +77,12 @@ impl<'a> World<'a> {
                 return Err(viol(class, b.class.to_string(), self.step_no, format!("map '{}' at {when}: {}", self.maps[m].spec.name, b.detail)));
             }
         };
+        if let Some(b) = d.accounting.first() {
+            if self.ep.checks.accounting {
+                return Err(viol(class, b.class.to_string(), self.step_no, format!("map '{}' at {when}: {}", self.maps[m].spec.name, b.detail)));
+            }
+            self.stats.probe("accounting-inconsistency-seen-not-this-property");
+        }
         let kt = self.maps[m].spec.kt;
         if d.sig2 != kt.signature() {
             return Err(viol(class, "type-signature".into(), self.step_no, format!("map '{}' at {when}: type signature {:02x?}, documented {:02x?}", self.maps[m].spec.name, d.sig2, kt.signature())));
